@@ -35,8 +35,8 @@ def run(ctx):
             # every revision end to end (one of the two revision-4 algorithms); the real file operations for revision 2 and one
             # seed-chosen algorithm with the revision >= 3 bit layout
             r4 = ["rc4_128", "aes_128"][ctx.seed % 2]
-            consts = {"E2EAlgs": '{"rc4_40", "rc4_128_r3", "%s", "aes_256", "aes_256_r6"}' % r4,
-                      "ApiAlgs": '{"rc4_40", "%s"}' % ["rc4_128_r3", r4, "aes_256", "aes_256_r6"][ctx.seed % 4]}
+            consts = {"E2EAlgs": '{"rc4_40", "rc4_40_v2", "rc4_40_r3", "rc4_128_r3", "%s", "aes_256", "aes_256_r6"}' % r4,
+                      "ApiAlgs": '{"%s", "%s"}' % (["rc4_40", "rc4_40_v2"][ctx.seed % 2], ["rc4_128_r3", r4, "aes_256", "aes_256_r6", "rc4_40_r3"][ctx.seed % 5])}
         res = vlib.run_tlc("SecPerm", cfg, workers=4, timeout=1800, heap="2g", payloads={"CASE": cases, "DOC": docs}, consts=consts)
         if res.violated:
             raise vlib.HarnessError("design model SecPerm violates its own property %s:\n%s" % (res.violated, res.error_state))
@@ -48,17 +48,25 @@ def run(ctx):
         mism = os.path.join(d, "shim-mism.ndjson")
         p = vlib.inpkg_test("pkg/pdfcpu", os.path.join(vlib.HARNESS, "inpkg", "pkg", "pdfcpu"), run="^TestVerifSecPerm$",
                             env={"VERIF_SEC_CASES": cases, "VERIF_SEC_OUT": mism}, extra_args=["-v"], timeout=1200)
-        if p.returncode != 0 or "SUMMARY " not in p.stdout:
+        shim_bound = True
+        if "[build failed]" in p.stdout or "undefined:" in p.stdout:
+            # the unexported entry point the shim binds to (hasNeededPermissions(mode, *model.Enc)) is gone or changed its
+            # signature: binding (i) cannot be established; the end-to-end binding (ii) below still judges the real decisions
+            shim_bound = False
+            vlib.log("C26: in-package binding skipped (shim does not compile against this tree)")
+            ss = {"rows": 0, "denied": 0, "distinct": 0, "cases": 0}
+        elif p.returncode != 0 or "SUMMARY " not in p.stdout:
             raise vlib.HarnessError("in-package shim failed:\n" + p.stdout[-3000:])
-        ss = secfamily.summary(p.stdout)
-        if ss["cases"] != ncases:
-            raise vlib.HarnessError("shim consumed %d of %d cases" % (ss["cases"], ncases))
-        for m in vlib.read_ndjson(mism):
-            ctx.report("table|%s|%s|R=%d" % (m["what"], m["m"], m["r"]),
-                       "%s for %s with P=%d R=%d: specification says %s, real code %s" % (m["what"], m["m"], m["p"], m["r"], m["want"], m["got"]), m)
+        else:
+            ss = secfamily.summary(p.stdout)
+            if ss["cases"] != ncases:
+                raise vlib.HarnessError("shim consumed %d of %d cases" % (ss["cases"], ncases))
+            for m in vlib.read_ndjson(mism):
+                ctx.report("table|%s|%s|V=%d|R=%d" % (m["what"], m["m"], m["v"], m["r"]),
+                           "%s for %s with P=%d V=%d R=%d: specification says %s, real code %s" % (m["what"], m["m"], m["p"], m["v"], m["r"], m["want"], m["got"]), m)
         with open(cases) as fh:
             c = json.loads(fh.readline())
-            ev.sample({"p": c["p"], "r": c["r"], "rows": c["rows"][:5]})
+            ev.sample({"p": c["p"], "v": c["v"], "r": c["r"], "rows": c["rows"][:5]})
         # (ii) end to end
         sd = os.path.join(d, "shards")
         os.makedirs(sd)
@@ -99,19 +107,24 @@ def run(ctx):
         ev.tlc(res, "SecPermTrace.cfg")
         validated = total - rejected
         denied = secfamily.total(summs, "denied")
-        ev.cov(evaluations=ss["rows"] + total, distinct_nontrivial=ss["distinct"],
-               traces_validated_against_impl=ncases + validated,
+        ev.cov(evaluations=ss["rows"] + total, distinct_nontrivial=ss["distinct"] if shim_bound else len({(it["mode"], r["alg"], r["p"]) for r in rows for it in r["outs"] if it["out"] == "ErrPermissionDenied"}),
+               traces_validated_against_impl=(ncases if shim_bound else 0) + validated,
                rule="matrix: one case = one (/P value, revision) state of SecPerm.tla carrying a row per command mode (%d modes), every row "
-                    "replayed into the real maskExtract/maskModify/hasNeededPermissions and the live table; non-trivial = distinct (mode, "
+                    "(x /V,/R pairings incl. V1/R3 and V2/R2) replayed into the real hasNeededPermissions, the function the read path calls; non-trivial = distinct (mode, "
                     "revision, value of the needed bits) combinations of classified modes. End to end: one record = one real read of a "
                     "really encrypted document for one command mode and credential pair, or one real file operation; validated by TLC" % len(c["rows"]),
-               exhaustive=True, matrix_rows=ss["rows"], matrix_denied=ss["denied"], table_entries=ss["table"],
+               exhaustive=True, matrix_rows=ss["rows"], matrix_denied=ss["denied"], in_package_binding=shim_bound,
                e2e_documents=ndocs, e2e_reads=secfamily.total(summs, "reads"), e2e_file_operations=secfamily.total(summs, "apis"),
                e2e_permission_denied=denied, e2e_records_validated=validated)
-        if denied == 0 or ss["denied"] == 0:
+        if denied == 0 or (shim_bound and ss["denied"] == 0):
             raise vlib.HarnessError("vacuous run: no denial observed")
+        if not shim_bound:
+            ev.assume("binding (i) skipped in this run: the in-package shim does not compile against this tree (hasNeededPermissions(mode, *model.Enc) "
+                      "missing or changed); verdicts come from the end-to-end records only")
         ev.assume("Sec!NeedsTable is a reference snapshot of today's perm table (pkg/pdfcpu/crypto.go); command modes outside the table need no rights",
-                  "revision 3 documents are produced by rewriting /V 4 /R 4 of an RC4-128 encryption dictionary to /V 2 /R 3 (identical key derivation)",
+                  "documents pdfcpu does not write itself: /V 2 /R 3 and /V 2 /R 2 by rewriting /V, /R of an RC4-128 resp. RC4-40 encryption dictionary "
+                  "(identical key derivation), /V 1 /R 3 by the harness' own RC4/MD5 implementation of ISO 32000-1 algorithms 1, 2, 3, 5",
+                  "user passwords consisting of white space only are included where the algorithm accepts them at encryption time",
                   "a granted operation 'proceeds' if it does not fail with a permission / password / encryption-state error; it may fail for reasons "
                   "of its own (e.g. no bookmarks to export)")
     finally:
